@@ -1665,4 +1665,112 @@ theorem close_loads_aux (hh : HeaderOk Gen.Registry.confFileHeader) (vs : List V
   rw [renderSpecs_saved]
   rw [readRegistry_saved _ hh _ (savedOf_ok true vs h), savedOf_names]
 
+
+
+/-! ### the space-padding String variants -/
+
+theorem dropWhile_length_le {α : Type} (p : α → Bool) (l : List α) : (l.dropWhile p).length ≤ l.length := by
+  induction l with
+  | nil => simp
+  | cons a as ih => simp only [List.dropWhile]; split <;> simp <;> omega
+
+theorem lstrip_eq_iff (c : Char) (cs : Str) : lstrip (c :: cs) = c :: cs ↔ isSpace c = false := by
+  unfold lstrip lstripP
+  simp only [List.dropWhile]
+  constructor
+  · intro h
+    cases hc : isSpace c with
+    | false => rfl
+    | true =>
+      rw [hc] at h
+      have := dropWhile_length_le isSpace cs
+      have h2 := congrArg List.length h
+      simp at h2; omega
+  · intro h; simp [h]
+
+theorem rstrip_eq_iff (s : Str) (c : Char) (hl : s.getLast? = some c) : rstrip s = s ↔ isSpace c = false := by
+  constructor
+  · intro h
+    cases hc : isSpace c with
+    | false => rfl
+    | true =>
+      unfold rstrip rstripP at h
+      have hr : s.reverse.head? = some c := by rw [List.head?_reverse]; exact hl
+      cases hs : s.reverse with
+      | nil => rw [hs] at hr; simp at hr
+      | cons d ds =>
+        rw [hs] at hr h; simp at hr; subst hr
+        simp only [List.dropWhile, hc] at h
+        have h2 := congrArg List.length h
+        have := dropWhile_length_le isSpace ds
+        have h3 : s.length = (d :: ds).length := by rw [← hs]; simp
+        simp at h2 h3; omega
+  · intro h
+    exact rstripP_id _ _ (fun d hd => by rw [hl] at hd; cases hd; exact h)
+
+/-- non-empty, blank at both ends -/
+def Padded (w : Str) : Prop :=
+  (∃ c, w.head? = some c ∧ isSpace c = true) ∧ (∃ c, w.getLast? = some c ∧ isSpace c = true)
+
+theorem surroundSV_of_padded (w : Str) (h : Padded w) : surroundSV w = w := by
+  obtain ⟨⟨c, hc, hsc⟩, ⟨d, hd, hsd⟩⟩ := h
+  cases w with
+  | nil => simp at hc
+  | cons a as =>
+    simp at hc; subst hc
+    unfold surroundSV
+    have h1 : ¬ (lstrip (a :: as) = a :: as) := by rw [lstrip_eq_iff]; simp [hsc]
+    simp only [h1, and_false, if_false]
+    have h2 : ¬ (rstrip (a :: as) = a :: as) := by rw [rstrip_eq_iff _ d hd]; simp [hsd]
+    simp [h2]
+
+theorem isSpace_space : isSpace ' ' = true := by decide
+
+theorem surroundSV_padded (v : Str) : Padded (surroundSV v) := by
+  unfold surroundSV
+  cases v with
+  | nil =>
+    simp only [ne_eq, not_true_eq_false, false_and, if_false]
+    have : rstrip ([] : Str) = [] := by decide
+    simp only [this, if_true]
+    exact ⟨⟨' ', rfl, isSpace_space⟩, ⟨' ', rfl, isSpace_space⟩⟩
+  | cons a as =>
+    -- v1 starts with a blank
+    have hv1 : ∃ b bs, (if (a :: as) ≠ [] ∧ lstrip (a :: as) = a :: as then ' ' :: a :: as else a :: as) = b :: bs ∧ isSpace b = true := by
+      by_cases hl : lstrip (a :: as) = a :: as
+      · exact ⟨' ', a :: as, by simp [hl], isSpace_space⟩
+      · refine ⟨a, as, by simp [hl], ?_⟩
+        rw [lstrip_eq_iff] at hl; simpa using hl
+    obtain ⟨b, bs, hv, hb⟩ := hv1
+    simp only [hv]
+    by_cases hr : rstrip (b :: bs) = b :: bs
+    · simp only [hr, if_true]
+      exact ⟨⟨b, rfl, hb⟩, ⟨' ', by rw [List.getLast?_append]; simp, isSpace_space⟩⟩
+    · simp only [hr, if_false]
+      refine ⟨⟨b, rfl, hb⟩, ?_⟩
+      cases hl : (b :: bs).getLast? with
+      | none => simp at hl
+      | some d =>
+        refine ⟨d, rfl, ?_⟩
+        rw [rstrip_eq_iff _ d hl] at hr; simpa using hr
+
+theorem surroundSV_idem (v : Str) : surroundSV (surroundSV v) = surroundSV v :=
+  surroundSV_of_padded _ (surroundSV_padded v)
+
+theorem spaceRightSV_idem (v : Str) : spaceRightSV (spaceRightSV v) = spaceRightSV v := by
+  unfold spaceRightSV
+  by_cases h : v ≠ [] ∧ rstrip v = v
+  · rw [if_pos h]
+    have : ¬ (rstrip (v ++ [' ']) = v ++ [' ']) := by
+      rw [rstrip_eq_iff _ ' ' (by simp)]; simp [isSpace_space]
+    rw [if_neg (by intro hh; exact this hh.2)]
+  · simp only [h, if_false]
+
+theorem setValue_idem (k : StrClass) (hk : k ≠ .normalized) (v : Str) : k.setValue (k.setValue v) = k.setValue v := by
+  cases k with
+  | plain => rfl
+  | surrounded => exact surroundSV_idem v
+  | spaceRight => exact spaceRightSV_idem v
+  | normalized => exact absurd rfl hk
+
 end C15
